@@ -151,7 +151,12 @@ def group_alphabet(seed: int):
                     tuple(members))
 
     ext = mk("ext24", S.ip2int("172.16.5.0"), 255)
-    return [grp("G0"), grp("G1", n30), grp("G3", h1, n25, nc), grp("GH", h1, h2),
+    return [grp("G0"), grp("G1", n30), grp("G3", h1, n25, nc),
+            # the NAME "GH" with a wider member, listed BEFORE the narrow GH: equal text, other
+            # meaning (an answer must never be shared between objects by their text); never in one
+            # ACL with the narrow GH.  ({a.group: a} dictionaries keep the narrow one.)
+            Addr("group:GH(wide)", (S.cube(w, 255),), "GH", (mk("net24", w, 255),)),
+            grp("GH", h1, h2),
             grp("GU", n25lo, n25),  # GU: union of two halves = the /24, no single member is
             grp("GE", ext)]         # GE: a network outside the window
 
